@@ -339,7 +339,7 @@ def run_tests(workdir, timeout=1500):
 
 
 def work(prop, m, slot):
-    workdir = '/var/tmp/mut_%s_%d' % (prop, slot)
+    workdir = '/var/tmp/mut_%s_%d_%d' % (prop, os.getpid(), slot)
     scratch = workdir + '_ev'
     os.makedirs(scratch, exist_ok=True)
     if not os.path.exists(os.path.join(workdir, 'vivarium')):
@@ -445,7 +445,7 @@ def main():
                   (rec.get('first') or '')[:120] if rec['status'] != 'detected' else '',
                   flush=True)
     for i in range(jobs):
-        for d in ('/var/tmp/mut_%s_%d' % (prop, i), '/var/tmp/mut_%s_%d_ev' % (prop, i)):
+        for d in ('/var/tmp/mut_%s_%d_%d' % (prop, os.getpid(), i), '/var/tmp/mut_%s_%d_%d_ev' % (prop, os.getpid(), i)):
             shutil.rmtree(d, ignore_errors=True)
 
 
